@@ -18,12 +18,24 @@ use crate::files::{BaseFile, Region};
 use crate::walk;
 use vcore::{json, Value};
 
-#[derive(Clone, Debug, Default)]
+/// intern a (rare, parsed) string: plans are enumerated by the hundred thousand, their string fields are static
+pub fn intern(s: &str) -> &'static str {
+    static TABLE: std::sync::Mutex<Vec<&'static str>> = std::sync::Mutex::new(Vec::new());
+    let mut t = TABLE.lock().unwrap();
+    if let Some(x) = t.iter().find(|x| **x == s) {
+        return x;
+    }
+    let l: &'static str = Box::leak(s.to_string().into_boxed_str());
+    t.push(l);
+    l
+}
+
+#[derive(Clone, Copy, Debug, Default)]
 pub struct Plan {
-    pub src: String,
-    pub op: String,
-    pub arg: String,
-    pub sel: String,
+    pub src: &'static str,
+    pub op: &'static str,
+    pub arg: &'static str,
+    pub sel: &'static str,
     pub d: i64,
     pub fix: bool,
     pub r: usize,
@@ -101,7 +113,7 @@ pub fn apply(base: &BaseFile, donor: Option<&BaseFile>, p: &Plan) -> Option<Appl
     let mut out = b.clone();
     let reg = if p.r > 0 { Some(base.regions.get(p.r - 1)?) } else { None };
     let byte_at = |reg: Option<&Region>| -> Option<usize> {
-        match (p.sel.as_str(), reg) {
+        match (p.sel, reg) {
             ("abs", _) => (p.pos < n).then_some(p.pos),
             ("first", Some(r)) => Some(r.lo),
             ("last", Some(r)) => Some(r.hi - 1),
@@ -109,7 +121,7 @@ pub fn apply(base: &BaseFile, donor: Option<&BaseFile>, p: &Plan) -> Option<Appl
             _ => None,
         }
     };
-    match p.op.as_str() {
+    match p.op {
         "none" => Some(Applied { bytes: out, neww: 0, oldw: 0, at: 0 }),
         "flip" => {
             let at = byte_at(reg)?;
@@ -122,7 +134,7 @@ pub fn apply(base: &BaseFile, donor: Option<&BaseFile>, p: &Plan) -> Option<Appl
             Some(Applied { bytes: out, neww: 1, oldw: 1, at })
         }
         "trunc" => {
-            let cut = match (p.sel.as_str(), reg) {
+            let cut = match (p.sel, reg) {
                 ("abs", _) => p.pos as i64,
                 ("lo", Some(r)) => r.lo as i64 + p.d,
                 ("hi", Some(r)) => r.hi as i64 + p.d,
@@ -143,11 +155,11 @@ pub fn apply(base: &BaseFile, donor: Option<&BaseFile>, p: &Plan) -> Option<Appl
                         raw[w..].iter_mut().for_each(|x| *x = 0xFF);
                     }
                     let v = i128::from_le_bytes(raw);
-                    inflate_int(v, &p.arg).to_le_bytes()[..w].to_vec()
+                    inflate_int(v, p.arg).to_le_bytes()[..w].to_vec()
                 }
                 "zigzag" => {
                     let (u, _) = walk::uvarint(b, r.lo)?;
-                    let v = inflate_int(walk::unzigzag(u) as i128, &p.arg);
+                    let v = inflate_int(walk::unzigzag(u) as i128, p.arg);
                     let v = v.clamp(i64::MIN as i128, i64::MAX as i128) as i64;
                     let mut o = vec![];
                     walk::put_uvarint(walk::zigzag(v), &mut o);
@@ -155,7 +167,7 @@ pub fn apply(base: &BaseFile, donor: Option<&BaseFile>, p: &Plan) -> Option<Appl
                 }
                 "uvarint" => {
                     let (u, _) = walk::uvarint(b, r.lo)?;
-                    let v = inflate_int(u as i128, &p.arg);
+                    let v = inflate_int(u as i128, p.arg);
                     let v = if v < 0 { u64::MAX } else { v.min(u64::MAX as i128) as u64 };
                     let mut o = vec![];
                     walk::put_uvarint(v, &mut o);
@@ -234,7 +246,7 @@ pub fn plan_json(p: &Plan) -> Value {
 }
 
 pub fn plan_from(v: &Value) -> Plan {
-    let s = |k: &str| v[k].as_str().unwrap_or("").to_string();
+    let s = |k: &str| intern(v[k].as_str().unwrap_or(""));
     Plan {
         src: s("src"),
         op: s("op"),
